@@ -3,6 +3,7 @@ package vharn
 import (
 	"bytes"
 	"io"
+	"net/http"
 
 	"github.com/johannesboyne/gofakes3"
 	"github.com/johannesboyne/gofakes3/internal/vsym"
@@ -99,6 +100,11 @@ func VH_C10() {
 			k1 += "aaa/d/y"
 		}
 	}
+	if vsym.Param("pathlike", 0) == 1 && vsym.Choice("internalname", 2) == 1 {
+		// names the fs backends use for their own scratch files
+		k1 = []string{".modtime-resolution", "d/.modtime-resolution", ".gofakes3-upload-1-0", "d/.gofakes3-upload-z", "metadata", ".gofakes3-upload-"}[vsym.Choice("iname", 6)]
+		kl = 0
+	}
 	if vsym.Param("pathlike", 0) == 1 {
 		// concentrate on path-like keys: bytes from { '.', '/', '\\', 'b', 'x' }
 		for i := 0; i < kl; i++ { // only the free bytes
@@ -164,6 +170,20 @@ func VH_C10() {
 		vsym.Assert(!wrote, "C10/internal-storage-writable")
 	}
 	after := snap()
+	if op == 0 && accepted {
+		// an accepted write is an object like any other: reading other keys
+		// (the snapshot above) must not have destroyed or hidden it
+		got := readObj(b, b1, k1)
+		vsym.Assert(got.ok && got.body == "N" && got.meta == "new", "C10/accepted-object-lost")
+		ks, _ := listKeys(b, b1)
+		found := false
+		for _, l := range ks {
+			if l == k1 {
+				found = true
+			}
+		}
+		vsym.Assert(found, "C10/accepted-object-unlisted")
+	}
 	idx := 0
 	for bi, n := range buckets {
 		for _, k := range fixed {
@@ -200,4 +220,76 @@ func VH_C10() {
 	} else {
 		vsym.Reach("C10/refused")
 	}
+}
+
+// VH_C10h: the frame condition through the HTTP handler for keys containing
+// '%' and hex digits: the key the client addressed (the already-decoded
+// request path) is the key the backend stores, and keys that merely look like
+// an escaped form of another key stay different objects.
+func VH_C10h() {
+	kind := backendKind()
+	h, b := newServerKind(kind)
+	mkBucket(h, kind, "C10h")
+	fixed := []string{"x", "A", "rA", "r%41"}
+	for i, k := range fixed {
+		if _, err := b.PutObject("bkt", k, map[string]string{"X-Amz-Meta-A": "m-" + k}, bytes.NewReader([]byte{byte('A' + i)}), 1); err != nil {
+			panic(err)
+		}
+	}
+	kl := 1 + vsym.Choice("keylen", vsym.Param("maxkeylen", 4))
+	k1 := vsym.String("key", kl)
+	for i := 0; i < kl; i++ {
+		c := k1[i]
+		vsym.Assume(c == '%' || c == '4' || c == '1' || c == '2' || c == '5' || c == 'A' || c == 'r' || c == 'x')
+	}
+	snap := func() []objSnap {
+		var f []objSnap
+		for _, k := range fixed {
+			f = append(f, readObj(b, "bkt", k))
+		}
+		return f
+	}
+	before := snap()
+	op := vsym.Choice("op", 3)
+	wrote := false
+	switch op {
+	case 0:
+		r := Do(h, BodyReq("PUT", "/bkt/"+k1, http.Header{"X-Amz-Meta-A": {"new"}}, []byte("N")))
+		wrote = r.Code() == 200
+		if wrote {
+			got := readObj(b, "bkt", k1)
+			vsym.Assert(got.ok && got.body == "N" && got.meta == "new", "C10h/stored-under-the-addressed-key")
+		}
+	case 1:
+		r := Do(h, Req{Method: "DELETE", Path: "/bkt/" + k1})
+		wrote = r.Code() == 204
+	default:
+		r := Do(h, Req{Method: "GET", Path: "/bkt/" + k1})
+		want := readObj(b, "bkt", k1)
+		if want.ok {
+			vsym.Assert(r.Code() == 200 && string(r.Body) == want.body, "C10h/read-returns-the-addressed-key")
+		} else {
+			vsym.Assert(r.Code() == 404, "C10h/read-of-absent-key")
+		}
+	}
+	after := snap()
+	for i, k := range fixed {
+		if !(wrote && k == k1) {
+			vsym.Assert(before[i] == after[i], "C10h/other-object-changed")
+		}
+	}
+	ks, _ := listKeys(b, "bkt")
+	for _, k := range fixed {
+		if wrote && op == 1 && k == k1 {
+			continue
+		}
+		found := false
+		for _, l := range ks {
+			if l == k {
+				found = true
+			}
+		}
+		vsym.Assert(found, "C10h/other-key-unlisted")
+	}
+	vsym.Reach("C10h/done")
 }
